@@ -412,6 +412,10 @@ func runProperty(p propCfg, tier string) int {
 				"VERIF_SHARD_SEED=" + strconv.FormatUint(rapidSeed(base, j.part, j.shard), 10),
 			}
 			env = append(env, j.cfg.Env...)
+			if j.cfg.Race && tier == "thorough" {
+				// diversify the schedules of the concurrent parts: shards differ in GOMAXPROCS
+				env = append(env, "GOMAXPROCS="+strconv.Itoa([]int{16, 2, 4, 8}[j.shard%4]))
+			}
 			logPath := filepath.Join(logDir, tag+".log")
 			code, to, out := runTest(bins[j.cfg.Race], args, env, timeout, logPath)
 			r := runResult{part: j.part, shard: j.shard, exit: code, timedOut: to, out: out, statsPrefix: statsPrefix, log: logPath}
